@@ -1,7 +1,9 @@
 //! An overlay file system combining two filesystems, an upper layer with read/write access and a lower layer with only read access
 
 use crate::error::VfsErrorKind;
-use crate::{FileSystem, SeekAndRead, SeekAndWrite, VfsMetadata, VfsPath, VfsResult};
+use crate::{
+    FileSystem, SeekAndRead, SeekAndWrite, VfsFileType, VfsMetadata, VfsPath, VfsResult,
+};
 use std::collections::HashSet;
 
 use std::time::SystemTime;
@@ -114,6 +116,14 @@ impl FileSystem for OverlayFS {
 
     fn create_dir(&self, path: &str) -> VfsResult<()> {
         self.ensure_has_parent(path)?;
+        if self.exists(path)? {
+            // the entry may exist in a lower layer only
+            return Err(match self.metadata(path)?.file_type {
+                VfsFileType::File => VfsErrorKind::FileExists,
+                VfsFileType::Directory => VfsErrorKind::DirectoryExists,
+            }
+            .into());
+        }
         self.write_path(path)?.create_dir()?;
         let whiteout_path = self.whiteout_path(path)?;
         if whiteout_path.exists()? {
